@@ -301,6 +301,56 @@ func precancelTrial(r *vh.Run, i int) {
 	r.Count("precancel_trials", 1)
 }
 
+// slowWriteTrial: one chunk write that takes longer than the grace period (the shim holds the session lock inside
+// Write for 80 ms, grace 30 ms).  The expiry timer finds the session idle and waits for that lock; a status query
+// arrives meanwhile and refreshes the session.  Whatever the expiry pass decides when the write is done, the session
+// must stay usable: the next requests return.
+func slowWriteTrial(r *vh.Run, i int) {
+	root := r.TempDir("c12w")
+	defer vh.RemoveAll(root)
+	srv := vh.New(vh.Conf(vh.Dir, root, vh.Policy{Grace: 30 * time.Millisecond}))
+	wit := map[string]any{"trial": i, "store": "dir", "grace": "30ms", "write_holds_session_lock_for": "80ms"}
+	rs := vh.Do(srv, vh.Req{Method: "POST", URL: "/v2/w/blobs/uploads/"})
+	loc := rs.H.Get("Location")
+	if rs.Status != 202 || loc == "" {
+		return
+	}
+	path := loc[:strings.Index(loc, "?")]
+	patched := make(chan vh.Resp, 1)
+	go func() {
+		patched <- vh.Do(srv, vh.Req{Method: "PATCH", URL: loc, Body: []byte(fmt.Sprintf("slow chunk %d", i))})
+	}()
+	// while the write holds the lock: let the timer fire (33 ms after the session was created), then ask for the status
+	time.Sleep(time.Duration(40+5*(i%5)) * time.Millisecond)
+	statusDone := make(chan struct{})
+	go func() { vh.Do(srv, vh.Req{Method: "GET", URL: path}); close(statusDone) }()
+	res := vh.Watch(func() {
+		p := <-patched
+		<-statusDone
+		// the session is still there or has expired - either way requests on it return
+		vh.Do(srv, vh.Req{Method: "GET", URL: path})
+		if l := p.H.Get("Location"); p.Status == 202 && l != "" {
+			vh.Do(srv, vh.Req{Method: "PATCH", URL: l, Body: []byte("next")})
+		}
+		vh.Do(srv, vh.Req{Method: "DELETE", URL: path})
+	}, 3*time.Second, 40*time.Second)
+	r.Count("slow_write_trials", 1)
+	if res.Stalled {
+		wit["blocked_goroutines"] = res.Desc
+		r.Violation("session-blocked-after-slow-write", "a chunk write took longer than the grace period while a status query refreshed the session; afterwards requests on that session never return", wit)
+		return
+	}
+	if !res.Done {
+		r.Inconclusive("slow-write trial still running after 40 s without a stable stall")
+		return
+	}
+	res = vh.Watch(func() { _ = srv.Close() }, 3*time.Second, 40*time.Second)
+	if res.Stalled {
+		wit["blocked_goroutines"] = res.Desc
+		r.Violation("close-hangs", "after the slow-write trial Close does not return", wit)
+	}
+}
+
 func main() {
 	r := vh.Start()
 	vsync.SetTracking(true)
@@ -352,6 +402,13 @@ func main() {
 			}
 		})
 	}
+	if !st {
+		// last, on their own: the hold applies to every Write in the process
+		vsync.SetHold("(*dirRepoUpload).Write", 80*time.Millisecond)
+		nw := r.N(6, 60)
+		vh.Parallel(nw, 3, func(i int) { slowWriteTrial(r, i) })
+		vsync.SetHold("", 0)
+	}
 	r.Count("lock_acquisitions", int(vsync.Acquisitions.Load()))
 	r.Count("contended_acquisitions", int(vsync.Contended.Load()))
 	r.Count("jitter_injections", int(vsync.Jitters.Load()))
@@ -372,7 +429,7 @@ func main() {
 		r.Require("contended_acquisitions", 100)
 		r.Require("requests_blocked_behind_collection", 3)
 	}
-	r.Finish("stress batches of 6-12 concurrent clients x 25 sequences (chunked uploads with pauses, status queries, cancel / abandon / complete, image + artifact pushes, referrers reads, deletes, listings, idle periods) against 1-3 repositories with grace period 20-60 ms, RepoUploadMax 2-4, collection every 5-10 ms, Close during traffic in a third of the batches, both stores, seeded jitter before every mutex acquisition and WaitGroup wait; plus trials in which a request is held open, a collection waits for it, and a third request is cancelled, and trials of 40 requests whose context is cancelled before or while they run followed by an ordinary request and Close; a case is one batch or trial, distinct = configurations (store, grace, frequency, limit, clients, repositories)", "batches", "configs")
+	r.Finish("stress batches of 6-12 concurrent clients x 25 sequences (chunked uploads with pauses, status queries, cancel / abandon / complete, image + artifact pushes, referrers reads, deletes, listings, idle periods) against 1-3 repositories with grace period 20-60 ms, RepoUploadMax 2-4, collection every 5-10 ms, Close during traffic in a third of the batches, both stores, seeded jitter before every mutex acquisition and WaitGroup wait; plus trials in which a request is held open, a collection waits for it, and a third request is cancelled, and trials of 40 requests whose context is cancelled before or while they run followed by an ordinary request and Close, and trials in which one chunk write holds the session lock for longer than the grace period while a status query refreshes the session; a case is one batch or trial, distinct = configurations (store, grace, frequency, limit, clients, repositories)", "batches", "configs")
 	if st {
 		os.Exit(0) // goroutines of the deadlocked batch are still parked
 	}
